@@ -110,7 +110,7 @@ def check(repo, col, tier):
                     raise Und("gate function does not return a pair")
                 for i, (g, r, lab) in enumerate(zip(got, (ra, rb), ("first", "second"))):
                     programs += 1
-                    g = rat_of(g)
+                    g = kin.main_region(g)
                     want = kin.ref(ev, r)
                     what = {"ab": ("alpha", "beta"), "inftau": ("x_inf", "tau")}[gkind][i]
                     ret = _return_elt(fi.node, i)
@@ -138,7 +138,7 @@ def check(repo, col, tier):
                                 "published state is not updated by update_states", node=fi.node)
                         continue
                     skind, ra, rb = sp["states"][key]
-                    new = rat_of(upd[key])
+                    new = kin.main_region(upd[key])
                     k, xinf, E = kin.decompose_update(ev, new, f"S[{key}]")
                     a, b = kin.ref(ev, ra), kin.ref(ev, rb)
                     if skind == "ab":
